@@ -25,6 +25,7 @@ type Store struct {
 	// Atomic CAS'ed int64/uint64's must be at the top for 32-bit compatibility.
 	size       int64                   // Atomic protected; file size or next write position.
 	nodeAllocs uint64                  // Atomic protected; total node allocation stats.
+	rootsEnd   int64                   // Atomic protected; end of the last roots record read or written.
 	coll       *map[string]*Collection // Copy-on-write map[string]*Collection.
 	file       StoreFile               // When nil, we're memory-only or no persistence.
 	callbacks  StoreCallbacks          // Optional / may be nil.
@@ -280,6 +281,11 @@ func (s *Store) FlushRevert() error {
 			cold.closeCollection()
 		}
 	}
+	if end := atomic.LoadInt64(&s.rootsEnd); end > 0 && end < atomic.LoadInt64(&s.size) {
+		// Bytes appended after the last roots record (by a Flush that failed
+		// part-way, or by Collection.Write) are not a flush to revert.
+		atomic.StoreInt64(&s.size, end)
+	}
 	if atomic.LoadInt64(&s.size) > rootsLen {
 		atomic.AddInt64(&s.size, -1)
 	}
@@ -304,6 +310,7 @@ func (s *Store) Snapshot() (snapshot *Store) {
 		coll:      &coll,
 		file:      s.file,
 		size:      atomic.LoadInt64(&s.size),
+		rootsEnd:  atomic.LoadInt64(&s.rootsEnd),
 		readOnly:  true,
 		callbacks: s.callbacks,
 	}
@@ -437,6 +444,7 @@ func (s *Store) writeRoots(rnls map[string]*rootNodeLoc) error {
 		return err
 	}
 	atomic.StoreInt64(&s.size, offset+int64(length))
+	atomic.StoreInt64(&s.rootsEnd, offset+int64(length))
 	return nil
 }
 
@@ -459,6 +467,7 @@ func (s *Store) readRootsScan(defaultToEmpty bool) (err error) {
 			return err
 		}
 		if defaultToEmpty && atomic.LoadInt64(&s.size) == 0 {
+			atomic.StoreInt64(&s.rootsEnd, 0)
 			return nil // No earlier roots: default to an empty store.
 		}
 		offset, length, err := s.readRootsEnd(rootsEnd)
@@ -467,6 +476,7 @@ func (s *Store) readRootsScan(defaultToEmpty bool) (err error) {
 		}
 		err = s.checkAndReadRoots(offset, length, rootsEnd)
 		if err == nil {
+			atomic.StoreInt64(&s.rootsEnd, atomic.LoadInt64(&s.size))
 			return nil
 		}
 		if re, ok := err.(rootsReadError); ok {
